@@ -12,7 +12,7 @@ struct WorldI : World {
   QmailTree t;
   struct Q { std::string sender; std::vector<std::string> rcpts; std::string body; }; std::vector<Q> queued;
   int pid = 0; bool done = false; int status = -1; Sink *errs = nullptr;
-  bool c17 = false;
+  bool c17 = false; bool first_done = false; int first_status = 0;
 
   void setup() override {
     t.build(k, conf);
@@ -28,6 +28,12 @@ struct WorldI : World {
     std::vector<std::string> env = {"USER=user1", "HOME=/home/user1"}; for (auto &p : plan->knobs["env"].o) env.push_back(p.first + "=" + p.second.str());
     pid = k->spawn(k->cp(), t.home + "/bin/qmail-inject", argv, env, {{0, k->of_preloaded(plan->knobs.gets("stdin"), "stdin")}, {1, k->of_sink(errs)}, {2, k->of_sink(errs)}}, 1001, 1001, "/");
     k->block([this] { for (auto &pp : k->procs) if (pp.second->st == Proc::LIVE && !pp.second->immortal) return false; return true; }, k->clock + 200000, false, true);
+    if (plan->knobs.getb("reinject", false) && queued.size() == 1) {
+      // feed the rewritten message back: its header must parse to the same recipients
+      first_done = true; first_status = status; done = false;
+      pid = k->spawn(k->cp(), t.home + "/bin/qmail-inject", {"qmail-inject", "-h"}, env, {{0, k->of_preloaded(queued[0].body, "stdin2")}, {1, k->of_sink(errs)}, {2, k->of_sink(errs)}}, 1001, 1001, "/");
+      k->block([this] { for (auto &pp : k->procs) if (pp.second->st == Proc::LIVE && !pp.second->immortal) return false; return true; }, k->clock + 200000, false, true);
+    }
     k->stop = true;
   }
   void on_event(const Event &e) override {
@@ -46,11 +52,11 @@ struct WorldI : World {
     if (!done) { violate(c17 ? "C17.inject-hung" : "C20.inject-hung", "qmail-inject still running"); return; }
     Hash64 h; h.u64((uint64_t)status); for (auto &q : queued) { h.str(q.sender); for (auto &r : q.rcpts) h.str(r); } res->state_hash = h.get();
     if (!c17) return;
-    int code = (status >> 8) & 0xff;
+    int code = ((first_done ? first_status : status) >> 8) & 0xff;
     const Json &want = plan->knobs["expect"];
     if (want.is_null()) return;
     std::string in = plan->knobs.gets("stdin");
-    if (code != 0 || queued.size() != 1) { violate("C17.inject-refused", "qmail-inject exited " + std::to_string(code) + " with " + std::to_string(queued.size()) + " messages queued for header \"" + printable(in, 200) + "\""); return; }
+    if (code != 0 || queued.size() < 1) { violate("C17.inject-refused", "qmail-inject exited " + std::to_string(code) + " with " + std::to_string(queued.size()) + " messages queued for header \"" + printable(in, 200) + "\""); return; }
     std::vector<std::string> w; for (auto &x : want["rcpts"].a) w.push_back(x.str());
     std::vector<std::string> g = queued[0].rcpts;
     std::vector<std::string> ws = w, gs = g; std::sort(ws.begin(), ws.end()); std::sort(gs.begin(), gs.end());
@@ -59,6 +65,12 @@ struct WorldI : World {
     // Bcc must not survive in the stored header
     { const std::string &b = queued[0].body; size_t he = b.find("\n\n"); std::string hdr = he == std::string::npos ? b : b.substr(0, he + 1); std::string lh = hdr; for (auto &c : lh) c = (char)tolower((unsigned char)c);
       if (lh.compare(0, 4, "bcc:") == 0 || lh.find("\nbcc:") != std::string::npos) { violate("C17.bcc-kept", "stored header still has a Bcc field: \"" + printable(hdr, 200) + "\""); return; } }
+    if (first_done) {
+      if (queued.size() != 2) { violate("C17.reparse", "the rewritten header was refused on re-injection (exit " + std::to_string((status >> 8) & 0xff) + "): \"" + printable(queued[0].body, 300) + "\""); return; }
+      std::vector<std::string> a = queued[0].rcpts, b = queued[1].rcpts; std::sort(a.begin(), a.end()); std::sort(b.begin(), b.end());
+      if (a != b) { std::string x, y; for (auto &q : a) x += "[" + printable(q, 40) + "]"; for (auto &q : b) y += "[" + printable(q, 40) + "]"; violate("C17.reparse", "rewritten header parses to " + y + " instead of " + x + ": \"" + printable(queued[0].body, 300) + "\""); return; }
+      k->probe("c17_reparse_checked");
+    }
     k->probe("c17_inject_checked");
   }
 };
